@@ -4,7 +4,7 @@ from __future__ import annotations
 import ast
 
 from ..cfg import cfg_of, T as TRUE, F as FALSE
-from ..dataflow import derives, rd_of
+from ..dataflow import derives, rd_of, resolve_local, return_values, expand_locals
 from ..loader import dotted, walk_no_nested
 from ..tables import CompilerTable, op_classes
 from . import common_order as CO
@@ -27,14 +27,14 @@ def order(ctx, rule="C11.set-order"):
         found = False
         for ds in rd.defs_at.values():
             for d in ds:
-                if d.var == "dict_indices" and d.kind == "assign":
+                if d.var in _roles(f)[0] and d.kind == "assign":
                     found = True
                     dv = derives(f.node, d.value, d.node)
                     ok = dv.has_call("sorted") or dv.has_call(".sort") or dv.has_call("np.sort")
                     ctx.ob(rule, f.site, ok, "" if ok else "dict_indices maps modes to matrix rows by their position in an "
                            "unsorted collection, while the output command acts on registers sorted by index",
                            role="index-map-sorted", line=d.stmt.lineno)
-        ctx.require(found, f"{qn} no longer builds dict_indices")
+        ctx.require(found, f"{qn} no longer builds a mode -> row dictionary")
         # output registers sorted by index
         cmds = [n for n in walk_no_nested(f.node) if isinstance(n, ast.Call) and dotted(n.func) == "Command"]
         for c in cmds:
@@ -47,6 +47,41 @@ def order(ctx, rule="C11.set-order"):
     ctx.floor(rule, 5)
 
 
+def _roles(f):
+    """name-independent roles of the locals of a merging compile(): IM = the mode -> row dictionaries (locals bound to a
+    dict comprehension / dict(...) call), NM = the locals holding the class name of the current operation"""
+    im, nm = set(), set()
+    for n in walk_no_nested(f.node):
+        if isinstance(n, ast.Assign) and len(n.targets) == 1 and isinstance(n.targets[0], ast.Name):
+            v = n.value
+            if isinstance(v, ast.DictComp) or isinstance(v, ast.Call) and dotted(v.func) == "dict":
+                im.add(n.targets[0].id)
+            if isinstance(v, ast.Attribute) and v.attr == "__name__" or \
+                    isinstance(v, ast.Call) and dotted(v.func) == "type" and False:
+                nm.add(n.targets[0].id)
+    return im, nm
+
+
+def _is_raw_mode(f, rd, x: ast.Name, at, im) -> bool:
+    """does the name (read at CFG node `at`) hold lifetime mode indices (.ind of registers) that have not been mapped
+    through the index map?"""
+    for d in rd.reaching(x.id, at):
+        v = d.value
+        if v is None or d.weak:
+            continue
+        if d.kind in ("for", "comp"):
+            # element of a list: look at the list
+            for y in ast.walk(v):
+                if isinstance(y, ast.Name) and y.id != x.id and _is_raw_mode(f, rd, y, d.node, im):
+                    return True
+            continue
+        has_ind = any(isinstance(y, ast.Attribute) and y.attr == "ind" for y in ast.walk(v))
+        mapped = any(isinstance(y, ast.Subscript) and dotted(y.value) in im for y in ast.walk(v))
+        if has_ind and not mapped:
+            return True
+    return False
+
+
 HELPERS = {"_apply_symp_one_mode_gate": [3], "_apply_symp_two_mode_gate": [3, 4], "_apply_one_mode_gate": [2],
            "_apply_two_mode_gate": [2, 3]}
 
@@ -57,6 +92,9 @@ def index_map(ctx, rule="C11.index-map"):
                 "receive the indices of modes[0], modes[1] in that order.")
     for rel, qn in ((GU, "GaussianUnitary.compile"), (PV, "Passive.compile")):
         f = ctx.tree.func(rel, qn)
+        IM, _nm = _roles(f)
+        ctx.require(IM, f"{qn} no longer builds a mode -> row dictionary")
+        rd = rd_of(f.node)
         for n in walk_no_nested(f.node):
             if isinstance(n, ast.Call) and dotted(n.func) in HELPERS:
                 pos = HELPERS[dotted(n.func)]
@@ -65,9 +103,10 @@ def index_map(ctx, rule="C11.index-map"):
                     if p >= len(n.args):
                         continue
                     a = n.args[p]
-                    ok = isinstance(a, ast.Subscript) and dotted(a.value) == "dict_indices"
+                    a = resolve_local(f.node, a)
+                    ok = isinstance(a, ast.Subscript) and dotted(a.value) in IM
                     which = None
-                    if ok and isinstance(a.slice, ast.Subscript) and dotted(a.slice.value) == "modes" and \
+                    if ok and isinstance(a.slice, ast.Subscript) and isinstance(a.slice.value, ast.Name) and \
                             isinstance(a.slice.slice, ast.Constant):
                         which = a.slice.slice.value
                     got.append(which)
@@ -79,23 +118,38 @@ def index_map(ctx, rule="C11.index-map"):
                     ctx.ob(rule, f.site, ok, "" if ok else f"{dotted(n.func)} receives modes in order {got}: the two-mode "
                            "matrix acts with its modes transposed", role=f"{dotted(n.func)}:order", line=n.lineno)
             # subscripts of rnet / T with mode-derived index
-            if isinstance(n, ast.Subscript) and dotted(n.value) in ("rnet", "Snet", "T") and not isinstance(n.slice, ast.Slice):
-                ix = n.slice
-                names = {x.id for x in ast.walk(ix) if isinstance(x, ast.Name)}
-                if "modes" in names or "mode" in names:
-                    ok = "dict_indices" in names
+            if isinstance(n, ast.Subscript) and isinstance(n.value, ast.Name) and n.value.id not in IM \
+                    and not isinstance(n.slice, ast.Slice):
+                ids = rd.cfg.node_of_expr(n)
+                if not ids:
+                    continue
+                base_raw = _is_raw_mode(f, rd, n.value, ids[0], IM)
+                if base_raw:
+                    continue  # modes[0]: selecting from the list of mode indices
+                names = [x for x in ast.walk(n.slice) if isinstance(x, ast.Name)]
+                raw = [x for x in names if _is_raw_mode(f, rd, x, ids[0], IM)]
+                if raw:
+                    # every raw occurrence must sit inside a subscript of the index map
+                    def wrapped(x):
+                        p = getattr(x, "parent", None)
+                        while p is not None and p is not n:
+                            if isinstance(p, ast.Subscript) and dotted(p.value) in IM:
+                                return True
+                            p = getattr(p, "parent", None)
+                        return False
+                    ok = all(wrapped(x) for x in raw)
                     ctx.ob(rule, f.site, ok, "" if ok else f"`{ast.unparse(n)[:40]}` indexes the net matrix with a raw mode index",
-                           role=f"subscript:{dotted(n.value)}", line=n.lineno)
+                           role="subscript:net", line=n.lineno)
             # expand(S, [dict_indices[mode] for mode in modes], nmodes) / np.ix_(modes, modes) after remapping
             if isinstance(n, ast.Call) and dotted(n.func) == "expand" and len(n.args) >= 2:
                 d = derives(f.node, n.args[1])
-                ok = any(isinstance(e, ast.Subscript) and dotted(e.value) == "dict_indices" for e in d.exprs)
+                ok = any(isinstance(e, ast.Subscript) and dotted(e.value) in IM for e in d.exprs)
                 ctx.ob(rule, f.site, ok, "" if ok else "expand() receives raw mode indices", role="expand", line=n.lineno)
             if isinstance(n, ast.Call) and dotted(n.func) == "np.ix_":
                 oks = []
                 for a in n.args:
                     d = derives(f.node, a)
-                    oks.append(any(isinstance(e, ast.Subscript) and dotted(e.value) == "dict_indices" for e in d.exprs))
+                    oks.append(any(isinstance(e, ast.Subscript) and dotted(e.value) in IM for e in d.exprs))
                 ok = all(oks)
                 ctx.ob(rule, f.site, ok, "" if ok else "np.ix_ addresses the transfer matrix with raw mode indices",
                        role="ix", line=n.lineno)
@@ -128,11 +182,14 @@ def dispatch(ctx, rule="C11.dispatch"):
     for rel, qn, cn in ((GU, "GaussianUnitary.compile", "GaussianUnitary"), (PV, "Passive.compile", "Passive")):
         f = ctx.tree.func(rel, qn)
         handled = set()
+        NM = _roles(f)[1]
+        def is_name(e):
+            return dotted(e) in NM or isinstance(e, ast.Attribute) and e.attr == "__name__"
         for n in walk_no_nested(f.node):
-            if isinstance(n, ast.Compare) and dotted(n.left) == "name" and isinstance(n.ops[0], ast.Eq) and \
+            if isinstance(n, ast.Compare) and is_name(n.left) and isinstance(n.ops[0], ast.Eq) and \
                     isinstance(n.comparators[0], ast.Constant):
                 handled.add(n.comparators[0].value)
-            if isinstance(n, ast.Compare) and dotted(n.left) == "name" and isinstance(n.ops[0], ast.In) and \
+            if isinstance(n, ast.Compare) and is_name(n.left) and isinstance(n.ops[0], ast.In) and \
                     isinstance(n.comparators[0], (ast.Tuple, ast.List, ast.Set)):
                 handled |= {e.value for e in n.comparators[0].elts if isinstance(e, ast.Constant)}
         # a raising else at the end of the dispatch chain?
@@ -154,8 +211,8 @@ def nonempty(ctx, rule="C11.nonempty"):
     # may it return []?  return A + B with A possibly [] and B a filtered comprehension
     may_empty = False
     rd = rd_of(g.node)
-    for r in [n for n in walk_no_nested(g.node) if isinstance(n, ast.Return) and n.value is not None]:
-        names = [x for x in ast.walk(r.value) if isinstance(x, ast.Name)]
+    for r, rv in return_values(g.node):
+        names = [x for x in ast.walk(rv) if isinstance(x, ast.Name)]
         flags = []
         for nm in names:
             ds = rd.reaching(nm.id, rd.cfg.find(r)[0])
@@ -205,7 +262,7 @@ def nonempty(ctx, rule="C11.nonempty"):
                 ok = bad is None or not may_empty
                 ctx.ob(rule, f.site, ok, "" if ok else f"`{ast.unparse(bad)[:40]}`: the result of GaussianUnitary().compile "
                        "is empty when the merged gates cancel; IndexError instead of a compiled program or CircuitError",
-                       role=f"subscript:{d.var}", line=bad.lineno if bad is not None else d.stmt.lineno)
+                       role="subscript:compile-result", line=bad.lineno if bad is not None else d.stmt.lineno)
     ctx.require(n >= 2, f"only {n} consumers of GaussianUnitary().compile found")
     ctx.floor(rule, 2)
 
